@@ -1343,7 +1343,7 @@ class quantized_bits(base_quantizer.BaseQuantizer):  # pylint: disable=invalid-n
     flags = [str(self.bits), integer_bits, str(int(self.symmetric))]
     if not self.keep_negative:
       flags.append("keep_negative=False")
-    if self.alpha:
+    if self.alpha is not None:
       alpha = str(self.alpha)
       if isinstance(self.alpha, six.string_types):
         alpha = "'" + alpha + "'"
@@ -3357,7 +3357,7 @@ class quantized_hswish(quantized_bits):  # pylint: disable=invalid-name
 
     if not self.keep_negative:
       flags.append("keep_negative=False")
-    if self.alpha:
+    if self.alpha is not None:
       alpha = str(self.alpha)
       if isinstance(self.alpha, six.string_types):
         alpha = "'" + alpha + "'"
